@@ -1,16 +1,25 @@
 ----------------------------- MODULE MsgReader -----------------------------
 (* The read API of a DNS message as a cursor machine over a fixed octet     *)
-(* string m (src/base/message.rs: QuestionSection, RecordSection and the    *)
-(* message-level helpers).  A cursor is [sec, pos, rem, n]: the section     *)
-(* (0 question, 1 answer, 2 authority, 3 additional, 4 consumed), the       *)
-(* offset of the next item, the remaining count or -1 once an error has     *)
-(* been seen (the `count: Result<u16, ParseError>` fuse), and the number    *)
-(* of items already yielded in this section.  Cursors are Copy: Fork saves  *)
-(* the cursor, Restore continues from the saved copy.  One action per       *)
-(* public call; the message-level calls (canonical_name, opt,               *)
-(* first_question) start fresh cursors and leave the current one alone.     *)
-(* The declarative counterpart is Wire!Sections(m); the invariants say      *)
-(* that every call order observes exactly that.                             *)
+(* string m (src/base/message.rs: QuestionSection, RecordSection, the       *)
+(* typed iterators RecordIter / AnyRecordIter obtained from a               *)
+(* RecordSection, and the message-level helpers).  A cursor is              *)
+(* [sec, pos, rem, n, v, e]: the section (0 question, 1 answer, 2           *)
+(* authority, 3 additional, 4 consumed), the offset of the next item, the   *)
+(* remaining count or -1 once a framing error has been seen (the            *)
+(* `count: Result<u16, ParseError>` fuse), the number of items already      *)
+(* consumed in this section, the view (raw: the section iterator itself;    *)
+(* lim / limin / any with a record-data type: limit_to, limit_to_in,        *)
+(* into_records), and whether this cursor has returned an error (after      *)
+(* which its position is no longer defined for the caller: a typed          *)
+(* iterator does not say whether the framing or only the RDATA was bad).    *)
+(* Cursors are Copy or Clone: Fork saves the cursor, Restore continues      *)
+(* from the saved copy; a copy is the same cursor, view included.  A        *)
+(* cursor is opened on any of the four sections (Message::question,         *)
+(* answer, authority, additional).  One action per public call; the         *)
+(* message-level calls (canonical_name, opt, first_question) start fresh    *)
+(* cursors and leave the current one alone.  The declarative counterpart    *)
+(* is Wire!Sections(m) and Wire!TWalkFrom; the invariants say that every    *)
+(* call order observes exactly that.                                        *)
 EXTENDS Wire, TLC
 
 VARIABLES m,        \* the message, fixed per behaviour
@@ -19,31 +28,53 @@ VARIABLES m,        \* the message, fixed per behaviour
           last      \* [op, k, v, pos]: the last call and its result
 vars == <<m, cur, saved, last>>
 
-Cursor(sec, pos, rem, n) == [sec |-> sec, pos |-> pos, rem |-> rem, n |-> n]
-NoCursor == Cursor(-1, 0, 0, 0)
-Dead == Cursor(4, 0, 0, 0)
+Cursor(sec, pos, rem, n, v, e) == [sec |-> sec, pos |-> pos, rem |-> rem, n |-> n, v |-> v, e |-> e]
+NoCursor == Cursor(-1, 0, 0, 0, RawView, 0)
+Dead == Cursor(4, 0, 0, 0, RawView, 0)
 Res(op, k, v, c) == [op |-> op, k |-> k, v |-> v,
-                     pos |-> IF c.sec \in 0..3 /\ c.rem >= 0 THEN c.pos ELSE -1]
+                     pos |-> IF c.sec \in 0..3 /\ c.e = 0 THEN c.pos ELSE -1]
 
-InitFor(msg) ==
+S == Sections(m)
+
+\* Message::question() / answer() / authority() / additional()
+CanOpen(msg, sec) == IF sec = 0 THEN TRUE ELSE Sections(msg).st[sec].ok
+InitAt(msg, sec) ==
   /\ m = msg
-  /\ cur = Cursor(0, HdrLen, QD(msg), 0)
+  /\ cur = Cursor(sec, IF sec = 0 THEN HdrLen ELSE Sections(msg).st[sec].pos, Count(msg, sec), 0, RawView, 0)
   /\ saved = NoCursor
-  /\ last = Res("open", "ok", <<>>, cur)
+  /\ last = Res("open", "ok", <<sec>>, cur)
+InitFor(msg) == InitAt(msg, 0)
 
 ---------------------------------------------------------------------------
 \* one step of an iterator: [c, k, v]
+Fuse(c) == [c EXCEPT !.rem = -1, !.e = 1]
+
+\* RecordIter::next / AnyRecordIter::next: records the view does not take
+\* are parsed and passed over
+RECURSIVE TStep(_)
+TStep(c) ==
+  IF c.rem <= 0 THEN [c |-> c, k |-> "none", v |-> <<>>]
+  ELSE LET r == ParseRecord(m, c.pos) IN
+    IF ~r.ok THEN [c |-> Fuse(c), k |-> "err", v |-> <<>>]
+    ELSE LET c2 == [c EXCEPT !.pos = r.next, !.rem = c.rem - 1, !.n = c.n + 1] IN
+      IF ~Selects(c.v, r.type, r.class) THEN TStep(c2)
+      ELSE LET el == TElem(m, c.v, RItem(m, r), r.rdpos) IN
+        IF el[1] = "r" THEN [c |-> c2, k |-> "tr", v |-> Tail(el)]
+        ELSE IF el[1] = "e" THEN [c |-> [c2 EXCEPT !.e = 1], k |-> "err", v |-> <<>>]
+        ELSE [c |-> c2, k |-> "und", v |-> <<>>]
+
 StepOf(c) ==
   IF c.sec = 4 THEN [c |-> c, k |-> "dead", v |-> <<>>]
   ELSE IF c.rem <= 0 THEN [c |-> c, k |-> "none", v |-> <<>>]       \* exhausted or fused
   ELSE IF c.sec = 0 THEN
     LET q == ParseQuestion(m, c.pos) IN
-    IF q.ok THEN [c |-> Cursor(0, q.next, c.rem - 1, c.n + 1), k |-> "q", v |-> QItem(q)]
-    ELSE [c |-> [c EXCEPT !.rem = -1], k |-> "err", v |-> <<>>]
+    IF q.ok THEN [c |-> [c EXCEPT !.pos = q.next, !.rem = c.rem - 1, !.n = c.n + 1], k |-> "q", v |-> QItem(q)]
+    ELSE [c |-> Fuse(c), k |-> "err", v |-> <<>>]
+  ELSE IF c.v.k # "raw" THEN TStep(c)
   ELSE
     LET r == ParseRecord(m, c.pos) IN
-    IF r.ok THEN [c |-> Cursor(c.sec, r.next, c.rem - 1, c.n + 1), k |-> "r", v |-> RItem(m, r)]
-    ELSE [c |-> [c EXCEPT !.rem = -1], k |-> "err", v |-> <<>>]
+    IF r.ok THEN [c |-> [c EXCEPT !.pos = r.next, !.rem = c.rem - 1, !.n = c.n + 1], k |-> "r", v |-> RItem(m, r)]
+    ELSE [c |-> Fuse(c), k |-> "err", v |-> <<>>]
 
 \* next_section(): questions are read, records are skipped; an error seen
 \* before or while doing so is reported and consumes the cursor
@@ -52,17 +83,19 @@ Drain(c) ==
   IF c.rem <= 0 THEN c
   ELSE IF c.sec = 0 THEN
     LET q == ParseQuestion(m, c.pos) IN
-    IF q.ok THEN Drain(Cursor(0, q.next, c.rem - 1, c.n + 1)) ELSE [c EXCEPT !.rem = -1]
+    IF q.ok THEN Drain([c EXCEPT !.pos = q.next, !.rem = c.rem - 1, !.n = c.n + 1]) ELSE [c EXCEPT !.rem = -1]
   ELSE
     LET s == SkipRecord(m, c.pos) IN
-    IF s.ok THEN Drain(Cursor(c.sec, s.next, c.rem - 1, c.n + 1)) ELSE [c EXCEPT !.rem = -1]
+    IF s.ok THEN Drain([c EXCEPT !.pos = s.next, !.rem = c.rem - 1, !.n = c.n + 1]) ELSE [c EXCEPT !.rem = -1]
 
+\* the typed iterators' next_section() is the section's: the result is a
+\* plain RecordSection again
 SectionOf(c) ==
   IF c.sec = 4 THEN [c |-> c, k |-> "dead", v |-> <<>>]
   ELSE IF c.sec = 3 THEN [c |-> Dead, k |-> "nosec", v |-> <<>>]
   ELSE LET d == Drain(c) IN
     IF d.rem < 0 THEN [c |-> Dead, k |-> "err", v |-> <<>>]
-    ELSE LET nc == Cursor(c.sec + 1, d.pos, Count(m, c.sec + 1), 0)
+    ELSE LET nc == Cursor(c.sec + 1, d.pos, Count(m, c.sec + 1), 0, RawView, 0)
          IN [c |-> nc, k |-> "sec", v |-> <<nc.sec, nc.rem>>]
 
 NextItem == LET s == StepOf(cur) IN
@@ -74,6 +107,16 @@ Fork ==
 Restore ==
   /\ saved.sec >= 0
   /\ cur' = saved /\ last' = Res("restore", "ok", <<>>, saved) /\ UNCHANGED <<m, saved>>
+\* limit_to::<D>(), limit_to_in::<D>(), into_records::<D>() trade a record
+\* section in for a typed iterator that continues at the same place;
+\* unwrap() trades it back
+ViewOp(v) == v.k \o "." \o v.d
+Limit(v) ==
+  /\ cur.sec \in 1..3 /\ cur.v.k = "raw" /\ v.k # "raw"
+  /\ cur' = [cur EXCEPT !.v = v] /\ last' = Res(ViewOp(v), "ok", <<>>, cur') /\ UNCHANGED <<m, saved>>
+Unwrap ==
+  /\ cur.sec \in 1..3 /\ cur.v.k # "raw"
+  /\ cur' = [cur EXCEPT !.v = RawView] /\ last' = Res("unwrap", "ok", <<>>, cur') /\ UNCHANGED <<m, saved>>
 CanonName == LET c == CanonicalName(m) IN
   /\ last' = Res("canon", c.k, c.name, cur) /\ UNCHANGED <<m, cur, saved>>
 OptCall == LET o == OptRecord(m) IN
@@ -82,12 +125,9 @@ FirstQ == LET q == FirstQuestion(m) IN
   /\ last' = Res("first", IF q.ok THEN "q" ELSE "none", IF q.ok THEN QItem(q) ELSE <<>>, cur)
   /\ UNCHANGED <<m, cur, saved>>
 
-Next == NextItem \/ NextSection \/ Fork \/ Restore \/ CanonName \/ OptCall \/ FirstQ
-
 ---------------------------------------------------------------------------
 (* Properties *)
 
-S == Sections(m)
 DeclItems(sec) == IF sec = 0 THEN S.q.items ELSE S.sec[sec].items
 DeclErr(sec) == IF sec = 0 THEN S.q.err ELSE S.sec[sec].err
 
@@ -99,24 +139,49 @@ IdempotentOf(c) ==
 Idempotent ==
   /\ IdempotentOf(cur)
   /\ (last.op = "next" /\ last.k \in {"q", "r"}) => last.v = DeclItems(cur.sec)[cur.n]
-  /\ (last.op = "next" /\ last.k = "err") => (DeclErr(cur.sec) /\ cur.n >= Len(DeclItems(cur.sec)))
+  /\ (last.op = "next" /\ last.k = "err" /\ cur.rem < 0) => (DeclErr(cur.sec) /\ cur.n >= Len(DeclItems(cur.sec)))
   /\ (last.op = "next" /\ last.k = "none" /\ cur.rem = 0 /\ cur.n = Count(m, cur.sec))
         => (~DeclErr(cur.sec) /\ cur.n = Len(DeclItems(cur.sec)))
   /\ last.op = "canon" => last.v = CanonicalNameS(m, S).name
   /\ last.op = "opt" => last.v = OptRecordS(S).v
 
+\* ViewIdempotent: what is left of a typed walk, from the live cursor and
+\* from the saved copy alike, is exactly the declarative walk of the view over
+\* the items not yet consumed: a copy walks what the original walks, and what
+\* a fresh iterator would
+RECURSIVE RunOut(_, _)
+RunOut(c, acc) ==
+  LET s == TStep(c) IN
+  IF s.k = "none" THEN acc
+  ELSE RunOut(s.c, Append(acc, IF s.k = "tr" THEN <<"r">> \o s.v
+                                ELSE IF s.k = "err" THEN <<"e">> ELSE <<"o">>))
+ViewIdempotentOf(c) ==
+  (c.sec \in 1..3 /\ c.v.k # "raw" /\ c.rem >= 0 /\ S.st[c.sec].ok) =>
+     RunOut(c, <<>>) = TWalkFrom(m, c.v, S.sec[c.sec], c.n + 1)
+ViewIdempotent == ViewIdempotentOf(cur) /\ ViewIdempotentOf(saved)
+\* a class-limited view hands out class IN only, a type-limited one its type only
+ViewFilters ==
+  (last.op = "next" /\ last.k = "tr") =>
+     /\ cur.v.k = "limin" => last.v[3] = 1
+     /\ (cur.v.k # "any" /\ DataType(cur.v.d) >= 0) => last.v[2] = DataType(cur.v.d)
+     /\ last.v[1] = DeclItems(cur.sec)[cur.n][1]
+
 PosWithin == cur.sec \in 0..3 => cur.pos <= Len(m)
 PosMonotone == [][(last'.op \in {"next", "nextsec"} /\ cur'.sec \in 0..3 /\ cur.sec \in 0..3)
                     => cur'.pos >= cur.pos]_vars
-\* Fused: after an error an iterator yields nothing more and moving on fails
+\* Fused: after a framing error an iterator yields nothing more and moving on fails
 Fused == [][(cur.sec \in 0..3 /\ cur.rem < 0) =>
               /\ last'.op = "next" => (last'.k = "none" /\ cur'.rem < 0)
               /\ last'.op = "nextsec" => last'.k = "err"]_vars
+\* an RDATA error of a typed view does not fuse: the section behind it stays reachable
+DataErrorGoesOn == [][(last'.op = "next" /\ last'.k = "err" /\ cur'.rem >= 0) =>
+                        (cur.v.k # "raw" /\ cur'.n > cur.n /\ cur'.pos > cur.pos)]_vars
 \* a skipped record section never yields more items than were counted
 CountBound == cur.sec \in 0..3 => (cur.rem <= 65535 /\ cur.n <= 65535)
 \* every name handed out by an item is a valid name
 ReturnedNamesValid ==
   /\ last.k = "q" => ValidAbs(last.v[1])
   /\ last.k = "r" => (ValidAbs(last.v[1]) /\ \A i \in 1..Len(last.v[7].names) : ValidAbs(last.v[7].names[i]))
+  /\ last.k = "tr" => ValidAbs(last.v[1])
   /\ (last.op = "canon" /\ last.k = "name") => ValidAbs(last.v)
 =============================================================================
